@@ -146,12 +146,14 @@ func (s *reader) readPacket(buf *bufio.Reader) (mqttp.IFace, error) {
 		remLen, m := binary.Uvarint(header[1:])
 		// Total message length is 1 (msg type) + remLen + m (remLen bytes)
 		s.remaining = 1 + int(remLen) + m
-		s.recv = make([]byte, s.remaining)
-	}
 
-	if s.remaining > int(s.packetMaxSize) {
-		s.log.Error("packet is too large")
-		return nil, mqttp.CodePacketTooLarge
+		// check the announced size before allocating a buffer for it
+		if s.remaining > int(s.packetMaxSize) {
+			s.log.Error("packet is too large")
+			return nil, mqttp.CodePacketTooLarge
+		}
+
+		s.recv = make([]byte, s.remaining)
 	}
 
 	offset := len(s.recv) - s.remaining
